@@ -173,6 +173,10 @@ func (c *Ctx) r136() {
 						if bi, ok := x.Call.Value.(*ssa.Builtin); ok && bi.Name() == "append" {
 							return walk(x.Call.Args[0])
 						}
+						// a method of the pooled object that returns memory (buf.Bytes()) may return its own
+						if callee := x.Call.StaticCallee(); callee != nil && callee.Signature.Recv() != nil && len(x.Call.Args) > 0 && isRefType(x.Type()) {
+							return walk(x.Call.Args[0])
+						}
 					}
 					return false
 				}
